@@ -529,6 +529,7 @@ def run_impl(init, recipes, res=None):
     my_recs = None        # independent copy of what was recorded: list of (time, bounds|None, psd|None); None = the all-zero first record
     my_saved = None
     rec_dirty = False     # something was recorded while a precondition was already violated
+    saved_dirty = False   # ... and written to the file
     hist = []             # tags of the state-changing operations so far
     replacer = 'construction'   # the operation that last changed the class boundaries
 
@@ -708,6 +709,11 @@ def run_impl(init, recipes, res=None):
             rec_dirty = True
         if t == 'enablerec':
             rec_dirty = not (s0['origBins'] >= 1 and 0 <= s0['origMin'] < s0['origMax'])
+        elif t == 'saverec' and was_recording:
+            saved_dirty = rec_dirty
+        elif t == 'loadrec':
+            rec_dirty = saved_dirty
+            valid = valid and not rec_dirty
         if full_reset and s0['origBins'] >= 1 and 0 <= s0['origMin'] < s0['origMax'] and not rec_dirty:
             valid = True          # reset(True) re-establishes the invariant whatever happened before (the records must be clean too)
         if valid:
